@@ -100,7 +100,7 @@ PLAN = {
         "C07": ["one_a", "one_b", "one_d", "one_s", "pair_a", "chain_b"],
         "C08": ["pair_a", "pair_b", "pair_r", "chain_a", "chain_b", "fan_a"],
         "C13": ["one_a", "one_c", "one_d", "one_g", "pair_a"],
-        "C12": ["one_a", "one_c", "one_d", "dup_a", "pair_a"],
+        "C12": ["one_a", "one_c", "one_d", "dup_a", "pair_a", "pair_r"],
         "C10": ["dup_a", "dup_b", "succ_a", "pair_r", "one_a", "pair_a"],
     },
     "thorough": {p: ["one_a", "one_b", "one_c", "one_d", "one_e", "one_f", "one_g", "one_h", "one_i", "one_j", "one_s", "succ_a", "succ_b", "pair_a", "pair_b", "chain_a", "chain_b", "fan_a"]
@@ -115,7 +115,7 @@ _unused = {
 }
 
 TRACE_INV = {
-    "C02": ["T_C02"], "C04": ["T_C04"], "C05": ["T_C05"], "C06": ["T_C06"], "C07": ["T_C07"], "C08": ["T_C08"], "C13": ["T_C13"], "C10": ["T_C10"],
+    "C02": ["T_C02"], "C04": ["T_C04"], "C05": ["T_C05"], "C06": ["T_C06"], "C07": ["T_C07"], "C08": ["T_C08"], "C13": ["T_C13"], "C10": ["T_C10"], "C12": ["T_C12"],
 }
 # free-running passes (no gates, the behaviour's environment actions back to back): judged by the same predicates
 FREE_INV = {"C02": ["T_C02"], "C04": ["T_C04"], "C05": ["T_C05"], "C06": ["T_C06"], "C07": ["T_C07"], "C08": ["T_C08"], "C13": ["T_C13"]}
@@ -387,7 +387,9 @@ def do_instance(binp, prop, tier, inst):
                       "expected_events": sorted([ev["e"], ev["a"], ev["n"]] for ev in e["events"])}
                 if confirm_events(sc, binp, inst, rf, pyinst):
                     out["violations"].append((rf, "lifecycle events published in scenario %s of %s differ from the occurrences: %s" % (s["id"], inst, why[:300])))
-            return out
+            if out["violations"]:
+                return out
+            # ... and, whichever way the races of a scenario went, the events the harness can count on its own
         if prop == "C10":
             # GetPID(id) resolves exactly the live actors: in a steered run that conformed up to the end the registry must
             # be the model's (reproduced in a second run before it counts)
